@@ -196,11 +196,14 @@ def _gen_update_set(cls: ast.ClassDef) -> t.List[str]:
     body = _strip_doc(fn.body)
     env: t.Dict[str, str] = {}
     outer = None
+    fresh_dict = False
+    if [a.arg for a in fn.args.args] != ["self", "set_"] or fn.args.defaults or fn.args.kwonlyargs:
+        raise Untranslatable(ob, f"unexpected parameters {[a.arg for a in fn.args.args]} (the assignment map must be built from set_ alone)")
     for st in body:
         if isinstance(st, ast.Assign) and isinstance(st.targets[0], ast.Name) and _u(st.value) in (CTE, PHYS):
             env[st.targets[0].id] = "Qual.cte" if _u(st.value) == CTE else "Qual.phys"
         elif _u(st) == "update_set = {}":
-            continue
+            fresh_dict = True
         elif isinstance(st, ast.For) and _u(st.target) == "(key, val)" and _u(st.iter) == "set_.items()":
             outer = st
         elif isinstance(st, ast.Return) and _u(st.value) == "update_set":
@@ -209,6 +212,8 @@ def _gen_update_set(cls: ast.ClassDef) -> t.List[str]:
             raise Untranslatable(ob, f"unsupported statement {_u(st)[:70]!r}")
     if outer is None:
         raise Untranslatable(ob, "no loop over set_.items()")
+    if not fresh_dict:
+        raise Untranslatable(ob, "the assignment map does not start from a fresh `update_set = {}`")
     loop_res = None
     key_bare = False
     stores_val = False
